@@ -23,10 +23,19 @@ std::string GenCfg::key() const
 
 const std::vector<std::string> & bkg_names()
 {
+  // read by the harness itself (first word of every non-comment line of the published list), NOT through
+  // bxdecay0::background_isotopes(): plan generation must not initialise the library's function-local
+  // statics, or a freshly forked process would no longer exercise their first use
   static std::vector<std::string> v;
   if (v.empty()) {
-    for (auto & n : bxdecay0::background_isotopes()) v.push_back(n);
+    std::ifstream f((repo_dir() + "/resources/description/background_isotopes.lis").c_str());
+    std::string line;
+    while (std::getline(f, line)) {
+      std::istringstream ls(line); std::string w;
+      if ((ls >> w) && w[0] != '#') v.push_back(w);
+    }
     std::sort(v.begin(), v.end());
+    v.erase(std::unique(v.begin(), v.end()), v.end());
   }
   return v;
 }
@@ -78,7 +87,10 @@ const std::vector<DbdEntry> & dbd_quad_missing()
 
 bool mode_supports_window(int mode)
 {
-  return bxdecay0::dbd_supports_esum_range(static_cast<bxdecay0::dbd_mode_type>(mode));
+  // the documented window-capable modes (README, bb_utils.cc dbd_modes_with_esum_range); kept as harness
+  // data so that plan generation does not touch library statics. `bxsim catalogue` cross-checks it.
+  static const std::set<int> w = {4, 5, 6, 8, 10, 13, 14, 15, 16, 19};
+  return w.count(mode) != 0;
 }
 
 int mdl_presets() { return 4; }
@@ -218,6 +230,9 @@ std::string malformed_reason(const bxdecay0::event & e, const std::string & expe
 int cmd_catalogue(std::map<std::string, std::string> & args)
 {
   std::string out = args.count("out") ? args["out"] : catalogue_path();
+  for (int m = 0; m <= 25; m++)
+    if (mode_supports_window(m) != bxdecay0::dbd_supports_esum_range(static_cast<bxdecay0::dbd_mode_type>(m)))
+      printf("WARNING: harness window-capable set differs from the library for mode %d\n", m);
   std::vector<std::string> isos;
   for (auto & n : bxdecay0::dbd_isotopes()) isos.push_back(n);
   int W = 16;
